@@ -716,7 +716,7 @@ class Builder:
             body_out = self._block(st.body, t, fr)
             fr.loops.pop()
             for a, lab in body_out:
-                g.edge(a, head.id, "back")
+                g.edge(a, head.id, lab if lab in ("T", "F") else "back")
             out = self._block(st.orelse, f, fr) if st.orelse else f
             for a, lab in out:
                 g.edge(a, brk.id, lab)
@@ -731,7 +731,7 @@ class Builder:
             body_out = self._block(st.body, [(head.id, "T")], fr)
             fr.loops.pop()
             for a, lab in body_out:
-                g.edge(a, head.id, "back")
+                g.edge(a, head.id, lab if lab in ("T", "F") else "back")
             f = [(head.id, "F")]
             out = self._block(st.orelse, f, fr) if st.orelse else f
             for a, lab in out:
